@@ -1959,6 +1959,8 @@ seq_t dtw_warping_paths_affinity_ndim(seq_t *wps,
     seq_t dtw_prev;
 
     DTWWps p = dtw_wps_parts(l1, l2, settings);
+    // Affinities are not squared distances: use the penalty as given
+    p.penalty = settings->penalty;
 
     idx_t ri, ci, min_ci, max_ci, wpsi, wpsi_start;
 
@@ -2294,6 +2296,8 @@ seq_t dtw_warping_paths_affinity_ndim_euclidean(seq_t *wps,
     seq_t dtw_prev;
 
     DTWWps p = dtw_wps_parts(l1, l2, settings);
+    // Affinities are not squared distances: use the penalty as given
+    p.penalty = settings->penalty;
 
     idx_t ri, ci, min_ci, max_ci, wpsi, wpsi_start;
 
